@@ -127,8 +127,15 @@ func TestC08(t *testing.T) {
 func TestC08Replay(t *testing.T) {
 	rc.Fixed(t, func() {
 		var c c08Case
-		loadReplay(&c)
-		if c.Builds < 6 {
+		if k := os.Getenv("VERIF_FINDING"); k != "" {
+			os.Setenv("VERIF_EXCLUDE", "")
+			// P chosen so that the "generic" flow is among the selected ones
+			c = c08Case{Builds: 2, Spec: progen.Spec{ModPath: "zqsimple", Pkgs: []progen.PkgSpec{{Name: "main"}, {Dir: "pkzq1w", Name: "pkzq1w"}},
+				Feats: []progen.Feat{{Kind: "reflect", Prov: 1, User: 0, Imp: "plain", P: []int{5, 5, 0, 0}}}}}
+		} else {
+			loadReplay(&c)
+		}
+		if c.Builds < 6 && os.Getenv("VERIF_FINDING") == "" {
 			c.Builds = 6
 		}
 		v, _, labels, flows := c08Run(c)
